@@ -534,6 +534,11 @@ func sameExpr(a, b ssa.Value) bool {
 	if a == b {
 		return true
 	}
+	if ca, ok := a.(*ssa.Convert); ok {
+		if cb, ok := b.(*ssa.Convert); ok && types.Identical(ca.Type(), cb.Type()) {
+			return sameExpr(ca.X, cb.X)
+		}
+	}
 	ca, ok1 := a.(*ssa.Call)
 	cb, ok2 := b.(*ssa.Call)
 	if ok1 && ok2 {
